@@ -128,7 +128,7 @@ def run(ck: Check):
     # ---- S + T: dexperm
     files = []
     files.append(("witness:key-collision", M.build(M.WITNESS_KEY_COLLISION)[0], M.WITNESS_KEY_COLLISION))
-    for i in range(60 if ck.quick else 1500):
+    for i in range(160 if ck.quick else 3000):
         model = M.gen_model(rng)
         files.append(("random:%d" % i, M.build(model)[0], model))
     for name, data in c05.shipped_dex():
